@@ -735,4 +735,256 @@ theorem codecC_constant (c : Int) :
     simp only [rdConstantC, hcanon, hrep, List.nil_append]
   · rw [if_neg hb] at hc; cases hc
 
+/-! ### the compressed encoder checked for transparency -/
+
+/-- push one canonical value per subset onto the ghost rows -/
+def ghostPush (canon : List Val) (forced : List (Nat × List Val)) : List (Nat × List Val) :=
+  List.zipWith (fun c g => (g.1, c :: g.2)) canon forced
+
+theorem ghostPush_map_snd : ∀ (canon : List Val) (forced : List (Nat × List Val)),
+    (ghostPush canon forced).map (·.2) = List.zipWith (· :: ·) canon (forced.map (·.2))
+  | [], _ => by simp [ghostPush]
+  | _ :: _, [] => by simp [ghostPush]
+  | c :: cs, g :: gs => by
+    have := ghostPush_map_snd cs gs
+    simp only [ghostPush, List.zipWith_cons_cons, List.map_cons] at this ⊢
+    rw [this]
+
+theorem ghostPush_length (canon : List Val) (forced : List (Nat × List Val)) :
+    (ghostPush canon forced).length = min canon.length forced.length := by
+  simp [ghostPush]
+
+theorem ghostPush_get {canon : List Val} {forced : List (Nat × List Val)} {k : Nat} {c : Val}
+    {g : Nat × List Val} (hc : canon[k]? = some c) (hg : forced[k]? = some g) :
+    (ghostPush canon forced)[k]? = some (g.1, c :: g.2) := by
+  simp [ghostPush, List.getElem?_zipWith, hc, hg]
+
+/-- `encStepC` that also pushes the ghost column onto the ghost rows (`St.forced`) -/
+def encStepCT (dd : DDesc) (col : ColW) (s : St) : CM St :=
+  match colVals s with
+  | .error e => .error e
+  | .ok values =>
+    match values with
+    | [] => .error .other
+    | v0 :: vs =>
+      match col ((v0 :: vs).all (· == v0)) (v0 :: vs) with
+      | .error e => .error e
+      | .ok o => .ok { s with regs := o.upd s.regs, descs := dd :: s.descs, idx := s.idx + 1,
+                              bits := o.bits.reverse ++ s.bits, forced := ghostPush o.canon s.forced }
+
+/-- the factor as every subset will READ it has to be the supplied one -/
+def encFactorCT (s : St) : CM Val := do
+  let v ← encFactorCX s
+  if s.forced.all (fun g => g.2.head? == some v) then pure v else .error .other
+
+/-- the bitmap as every subset will READ it has to have its zeros where the supplied one has them -/
+def encLastValuesCT (n : Nat) (s : St) : CM (List Val) := do
+  let l ← encLastValuesCX n s
+  if n = 0 ∨ s.forced.isEmpty then .error .other
+  else if s.forced.all (fun g => zeroMask ((g.2.take n).reverse) == zeroMask l) then pure l
+  else .error .other
+
+/-- The compressed encoder CHECKED FOR TRANSPARENCY.  It is `encPrimsC` with ghost rows
+    (`St.forced`: per subset the values a decoder returns, most recent first) and these refusals:
+    1. (as `encPrimsCX`) a numeric / code / flag value of some subset that the uncompressed encoder
+       refuses (negative or too large for its field; the compressed encoder range-checks only the
+       minimum of a column);
+    2. a field wider than 64 bits (no decoder reads it);
+    3. a present numeric / code / flag value that is the all-ones pattern of its field, for fields
+       wider than one bit (`opaqueRaw`; uncompressed it reads back missing, compressed as the number
+       or not at all);
+    4. a missing value in a one-bit field (`opaqueRaw`; uncompressed it reads back as 1, compressed
+       as missing);
+    5. (as `encPrimsCX`) replication factors that are not literally equal in all subsets, and (as
+       `encPrimsUX`) a factor whose field does not read back as supplied;
+    6. (as `encPrimsCX`) bitmaps whose zero entries differ between subsets, and (as `encPrimsUX`)
+       bitmap entries that read back zero at other positions than supplied; a bitmap of length
+       zero (unreachable).
+    A column whose spread does not fit the 6-bit increment width (`Spec.SpanOK`) needs no refusal:
+    the compressed encoder itself fails on it (`ct_spanOK_of_enc`). -/
+def encPrimsCT : Prims where
+  numeric dd nb sc rf := encStepCT dd (colT (colNumeric nb sc rf) (fldNumericT nb sc rf))
+  string dd n := encStepCT dd (colT (colString n) (fldString n))
+  codeflag dd n := encStepCT dd (colT (colCodeflag n) (fldCodeflagT n))
+  newRefval e n := encStepCT (.plain e) (colT (colNewRefval e.id n) (fldNewRefval e.id n))
+  constant dd c := encStepCT dd (colT (colConstant c) (fldConstant c))
+  factorValue := encFactorCT
+  lastValues := encLastValuesCT
+
+/-! ### checked compressed encoder ⟶ compressed decoder -/
+
+/-- encoder state `s` (ghost rows = canonical values so far) vs compressed decoder state `t`;
+    `L` = number of subsets -/
+def RelCD (L : Nat) (i : Bits) (s t : St) : Prop :=
+  t.regs = s.regs ∧ t.descs = s.descs ∧ t.links = s.links ∧ t.bits = i ∧
+    t.vals = s.forced.map (·.2) ∧ s.forced.length = L ∧ s.vals.length = L
+
+theorem encStepCT_decStepC_sim (W rest : Bits) (L : Nat) (dd : DDesc) (col : ColW) (rd : RdC)
+    (hc : CodecC col rd) (s : St) :
+    SimAt (IxED W rest) (RelCD L) s (encStepCT dd col s) (decStepC dd rd) := by
+  intro s' hr j hj
+  unfold encStepCT at hr
+  cases hv : colVals s with
+  | error e => rw [hv] at hr; cases hr
+  | ok values =>
+    rw [hv] at hr
+    cases values with
+    | nil => cases hr
+    | cons v0 vs =>
+      dsimp only at hr
+      cases ho : col ((v0 :: vs).all (· == v0)) (v0 :: vs) with
+      | error e => rw [ho] at hr; cases hr
+      | ok o =>
+        rw [ho] at hr
+        cases hr
+        obtain ⟨hclen, hrd⟩ := hc v0 vs o ho
+        have hvlen : (v0 :: vs).length = s.vals.length := ct_mapM_length hv
+        obtain ⟨hW, out, hout⟩ := hj
+        refine ⟨o.bits ++ j, ⟨?_, o.bits ++ out, by rw [hout, List.append_assoc]⟩, ?_⟩
+        · simpa [List.reverse_append, List.append_assoc] using hW
+        · intro t ⟨hregs, hdescs, hlinks, hbits, hvals, hfl, hvl⟩
+          unfold decStepC
+          have htl : t.vals.length = (v0 :: vs).length := by
+            rw [hvals, List.length_map, hfl, hvlen, hvl]
+          rw [htl, hbits, hrd j]
+          refine ⟨_, rfl, ?_⟩
+          simp only [RelCD, hregs, hdescs, hlinks, hvals, ghostPush_map_snd, ghostPush_length, hvl,
+            true_and]
+          rw [hclen, hvlen, hvl, hfl]
+          simp
+
+theorem ct_encFactorC_nonempty {s : St} {v : Val} (h : encFactorC s = .ok v) : s.vals ≠ [] := by
+  intro hnil
+  unfold encFactorC at h
+  by_cases h0 : s.idx = 0
+  · simp [h0] at h
+  · simp [h0, hnil, minmaxInt, headVal, bind, Except.bind, pure, Except.pure] at h
+
+theorem ct_minmaxInt_replicate (i : Int) : ∀ (L : Nat),
+    minmaxInt (List.replicate (L + 1) (Val.int i)) = .ok (some (i, i))
+  | 0 => rfl
+  | L + 1 => by
+    rw [List.replicate_succ, minmaxInt, ct_minmaxInt_replicate i L]
+    simp [bind, Except.bind, pure, Except.pure]
+
+theorem ct_encFactorCT_ok {s : St} {n : Nat} (h : (encFactorCT s >>= factorCount) = .ok n) :
+    ∃ v, encFactorCX s = .ok v ∧ (s.forced.all (fun g => g.2.head? == some v)) = true ∧
+      factorCount v = .ok n := by
+  unfold encFactorCT at h
+  cases hv : encFactorCX s with
+  | error e => simp only [hv, bind, Except.bind] at h; cases h
+  | ok v =>
+    simp only [hv, bind, Except.bind, pure, Except.pure] at h
+    by_cases hall : (s.forced.all (fun g => g.2.head? == some v)) = true
+    · simp only [hall, if_true] at h
+      exact ⟨v, rfl, hall, h⟩
+    · simp only [hall, if_false] at h; cases h
+
+theorem ct_encFactorCX_ok {s : St} {v : Val} (h : encFactorCX s = .ok v) : encFactorC s = .ok v := by
+  unfold encFactorCX at h
+  cases hv : encFactorC s with
+  | error e => rw [hv] at h; cases h
+  | ok w =>
+    rw [hv] at h
+    simp only [bind, Except.bind, pure, Except.pure] at h
+    split at h
+    · cases h
+    · split at h
+      · cases h; rfl
+      · cases h
+
+theorem ct_encLastValuesCT_ok {s : St} {n : Nat} {l : List Val} (h : encLastValuesCT n s = .ok l) :
+    encLastValuesCX n s = .ok l ∧ n ≠ 0 ∧ s.forced ≠ [] ∧
+      (s.forced.all (fun g => zeroMask ((g.2.take n).reverse) == zeroMask l)) = true := by
+  unfold encLastValuesCT at h
+  cases hv : encLastValuesCX n s with
+  | error e => simp only [hv, bind, Except.bind] at h; cases h
+  | ok l0 =>
+    simp only [hv, bind, Except.bind, pure, Except.pure] at h
+    split at h
+    · cases h
+    · rename_i hno
+      split at h
+      · rename_i hall
+        cases h
+        refine ⟨rfl, fun h0 => hno (Or.inl h0), fun hnil => hno (Or.inr ?_), hall⟩
+        rw [hnil]; rfl
+      · cases h
+
+theorem primSim_ct_dec (W rest : Bits) (L : Nat) :
+    PrimSim encPrimsCT decPrimsC (IxED W rest) (RelCD L) where
+  agree := fun h => ⟨h.1, h.2.1, h.2.2.1⟩
+  rel_setRegs := fun f ⟨h1, h2, h3, h4, h5, h6, h7⟩ => by
+    simp only [RelCD, St.setRegs_regs, St.setRegs_descs, St.setRegs_links, St.setRegs_bits,
+      St.setRegs_vals, St.setRegs_forced, h1, h2, h3, h4, h5, h6, h7, and_self]
+  rel_addLink := fun o ⟨h1, h2, h3, h4, h5, h6, h7⟩ => by
+    simp only [RelCD, addLink_regs, addLink_descs, addLink_links, addLink_bits,
+      addLink_vals, addLink_forced, h1, h2, h3, h4, h5, h6, h7, and_self]
+  ix_setRegs := fun _ => Iff.rfl
+  ix_addLink := fun _ => Iff.rfl
+  numeric := fun dd nb sc rf s =>
+    SimAt.congr_rel (fun _ t _ => decNumericC_eq dd nb sc rf t)
+      (encStepCT_decStepC_sim W rest L dd _ _ (codecC_numeric nb sc rf) s)
+  string := fun dd n s =>
+    SimAt.congr_rel (fun _ t _ => decStringC_eq dd n t)
+      (encStepCT_decStepC_sim W rest L dd _ _ (codecC_string n) s)
+  codeflag := fun dd n s =>
+    SimAt.congr_rel (fun _ t _ => decCodeflagC_eq dd n t)
+      (encStepCT_decStepC_sim W rest L dd _ _ (codecC_codeflag n) s)
+  newRefval := fun e n s =>
+    SimAt.congr_rel (fun _ t _ => decNewRefvalC_eq e n t)
+      (encStepCT_decStepC_sim W rest L _ _ _ (codecC_newRefval e.id n) s)
+  constant := fun dd c s =>
+    SimAt.congr_rel (fun _ t _ => decConstantC_eq dd c t)
+      (encStepCT_decStepC_sim W rest L dd _ _ (codecC_constant c) s)
+  factor := by
+    intro i s t n ⟨_, _, _, _, hvals, hfl, hvl⟩ h
+    show (decFactorC t >>= factorCount) = .ok n
+    change (encFactorCT s >>= factorCount) = .ok n at h
+    obtain ⟨v, hv, hall, hcount⟩ := ct_encFactorCT_ok h
+    have hne := ct_encFactorC_nonempty (ct_encFactorCX_ok hv)
+    have hheads : List.mapM (m := Except Err) headVal t.vals = .ok (t.vals.map (fun _ => v)) := by
+      apply ct_mapM_of_forall
+      intro row hrow
+      rw [hvals] at hrow
+      obtain ⟨g, hg, rfl⟩ := List.mem_map.mp hrow
+      have := List.all_eq_true.mp hall g hg
+      cases hg2 : g.2 with
+      | nil => rw [hg2] at this; simp at this
+      | cons a as =>
+        rw [hg2] at this
+        simp only [List.head?_cons, beq_iff_eq, Option.some.injEq] at this
+        rw [this]; rfl
+    have hlen : t.vals.length = L := by rw [hvals, List.length_map, hfl]
+    have hLpos : 0 < L := by
+      rw [← hvl]
+      exact List.length_pos_iff.mpr hne
+    obtain ⟨L', rfl⟩ : ∃ L', L = L' + 1 := ⟨L - 1, by omega⟩
+    have hrep : t.vals.map (fun _ => v) = List.replicate (L' + 1) v := by
+      rw [List.eq_replicate_iff]
+      exact ⟨by simp [hlen], fun b hb => by obtain ⟨_, _, rfl⟩ := List.mem_map.mp hb; rfl⟩
+    unfold decFactorC
+    rw [hheads, hrep]
+    cases v with
+    | int iv =>
+      simp only [bind, Except.bind, ct_minmaxInt_replicate iv L', ne_eq, not_true_eq_false, if_false]
+      simp only [List.replicate_succ, headVal]
+      exact hcount
+    | missing => cases hcount
+    | num a b => cases hcount
+    | bytes b => cases hcount
+  lastValues := by
+    intro i s t n l ⟨_, _, _, _, hvals, hfl, hvl⟩ h
+    change encLastValuesCT n s = .ok l at h
+    show ∃ l', decLastValues n t = .ok l' ∧ zeroMask l' = zeroMask l
+    obtain ⟨_, hn, hne, hall⟩ := ct_encLastValuesCT_ok h
+    unfold decLastValues
+    rw [hvals]
+    cases hf : s.forced with
+    | nil => exact absurd hf hne
+    | cons g gs =>
+      have := List.all_eq_true.mp hall g (by rw [hf]; simp)
+      simp only [List.map_cons, hn, if_false]
+      exact ⟨_, rfl, by simpa using this⟩
+
 end Bufr
